@@ -27,7 +27,7 @@ SPEC = Spec(
          "(permanent/throttle delay/retryable), consumer invocations, byte equality of the payload at the sink. 20% raw malformed "
          "requests (wrong method, content types, undecodable proto/JSON, unknown path, bad Content-Encoding, combinations, gRPC "
          "garbage frames). Corpus first: Retry-After witnesses, errorHandler witnesses, all 17 codes x 2 transports x +-RetryInfo. "
-         "CONCURRENCY stream (monitor; 3 corpus cases + 1 in 500): against one receiver, at once: two real OTLP/HTTP JSON exporters with very big bodies (12-20k items, slow to decode, so the handler is preempted while decoding), 2-5 small real exporters (gRPC, HTTP proto/JSON, all compressions, all 4 signals) in series, and a swarm of 6 plain HTTP clients re-posting a big well-formed protobuf request (2) and an 8-12 MiB non-protobuf body that must get 400 (4) for as long as the exporters are busy; GOMAXPROCS 1/2/4/default (schedule exploration); oracle: every well-formed request acknowledged, every junk one 400, multiset of payloads at the consumer == multiset sent; thorough repeats such cases under -race. SENDER SIDE against scripted FAKE servers (1 case in 5 + 21 corpus cases): the real otlphttp exporter (proto/JSON) against an HTTP server answering any status (2xx..999) x Retry-After {absent, delay-seconds incl. negative/zero/+n/00n/huge/overflowing, HTTP-date in RFC1123 and GMT form past and future, unusable strings, empty, two values} x body {empty, response, partial success, other content type, undecodable, >64KiB, Status, garbage}; the real gRPC exporter against a gRPC server answering every code (also >16) x RetryInfo {absent, 0, +-1ns .. 1 year} x partial success; panics recovered and reported. RECEIVER SIDE raw stream now also: both content types x every compression x {valid, truncated stream, wrong method/path/content type, undecodable body, oversized (plain and after decompression) against a receiver with max_request_body_size 4096}. non-trivial = non-nil outcome, compressed transport with items, or raw request; distinct = sha1 of op lines.",
+         "CONCURRENCY stream (monitor; 3 corpus cases + 1 in 500): against one receiver, at once: two real OTLP/HTTP JSON exporters with very big bodies (12-20k items, slow to decode, so the handler is preempted while decoding), 2-5 small real exporters (gRPC, HTTP proto/JSON, all compressions, all 4 signals) in series, and a swarm of 6 plain HTTP clients re-posting a big well-formed protobuf request (2) and an 8-12 MiB non-protobuf body that must get 400 (4) for as long as the exporters are busy; GOMAXPROCS 1/2/4/default (schedule exploration); oracle: every well-formed request acknowledged, every junk one 400, multiset of payloads at the consumer == multiset sent; thorough repeats such cases under -race. SENDER SIDE against scripted FAKE servers (1 case in 5 + 21 corpus cases): the real otlphttp exporter (proto/JSON) against an HTTP server answering any status (2xx..999) x Retry-After {absent, delay-seconds incl. negative/zero/+n/00n/huge/overflowing, HTTP-date in RFC1123 and GMT form past and future, unusable strings, empty, two values} x body {empty, response, partial success, other content type, undecodable, >64KiB, Status, garbage}; the real gRPC exporter against a gRPC server answering every code (also >16) x RetryInfo {absent, 0, +-1ns .. 1 year} x partial success; panics recovered and reported. RECEIVER SIDE raw gRPC stream: garbage frames, unknown method/service, unknown grpc-encoding (per-connection legacy compressor), messages over max_recv_msg_size (1 MiB receiver), with and without auth, combinations. Half of the hop payloads are type-directed (reflection over the public pdata API). RECEIVER SIDE raw HTTP stream now also: both content types x every compression x {valid, truncated stream, wrong method/path/content type, undecodable body, oversized (plain and after decompression) against a receiver with max_request_body_size 4096}. non-trivial = non-nil outcome, compressed transport with items, or raw request; distinct = sha1 of op lines.",
     trusted_base=[
         "Lean 4.33.0 kernel; axioms per theorem listed under axioms_per_theorem (subset of propext, Classical.choice, Quot.sound)",
         "translator translators/cmd/otlptables (go/ast): switch tables of GetHTTPStatusCodeFromStatus, NewStatusFromMsgAndHTTPCode, "
@@ -39,13 +39,29 @@ SPEC = Spec(
         "over loopback on every run",
         "OTLP specification tables transcribed by hand (specGrpcRetryable, specHttpRetryable, specHttp, specGrpc, specHttpOf)",
         "grpc-go and net/http (exercised, not modelled): status/details transport, request decoding before interceptors (gRPC), "
-        "ServeMux 404, confighttp auth 401 / configgrpc auth Unauthenticated and decompressor 400 are hand constants of the model",
+        "ServeMux 404, confighttp auth 401 / configgrpc auth Unauthenticated / decompressor 400 and the wrapping order in ToServer are now REGENERATED (C15_gen_shape); grpc-go codes and ServeMux 404 are hand constants of the model",
         "payload: marshalling (C08) and compression (C16) laws are hypotheses of C15_payload_partial; byte equality at the sink is "
         "checked on every hop",
     ],
     assumptions=[
-        "sender-side theorems about Retry-After delay-seconds are exact for |s| <= 9223372036 (time.Duration range); beyond it the "
-        "code wraps (modelled with wrap64, C15_retry_after_overflow_wraps) - recorded as an observation, not flagged",
+        "PAYLOAD clause: this check contributes the byte comparison at the sink (proto-marshalled payload received == sent) over "
+        "internal/testdata payloads AND type-directed payloads generated by reflection over the whole public pdata API (every setter, "
+        "nested message, repeated field, one-of alternative, attribute value kind; ~360 per quick run, all 4 signals); the marshalling "
+        "round trip itself is C08's theorem (C08_wrappers_otlp_api) and is composed with a lawful compression in "
+        "Lemmas/C15Payload.lean (C15_payload_pb_partial / C15_payload_json_partial), built on demand and NOT counted here because it "
+        "imports another property's proof files; the compression law is C16's sampled hypothesis. AnyValue holding zero bytes is not "
+        "generated (C08's recorded nil-vs-empty corner)",
+        "'a failure means the same thing on both sides' is proved PER TRANSPORT TABLE (C15_commutes_grpc/http); across transports it "
+        "holds except for RESOURCE_EXHAUSTED without RetryInfo (permanent over gRPC, retried over HTTP 429): spec-induced - the OTLP/gRPC "
+        "table makes it conditional on RetryInfo, the OTLP/HTTP table lists 429 as retryable unconditionally "
+        "(C15_transports_agree_partial, C15_transports_agree_full_fails)",
+        "gRPC requests answered by grpc-go itself (unknown method/service, unknown grpc-encoding, oversized message, undecodable frame) "
+        "get the LIBRARY's codes (Unimplemented, ResourceExhausted, Internal): hand constants of the model, tied by the raw differential; "
+        "ServeMux 404 likewise",
+        "the HTTP exporter follows the trait-free spec specHttpXPure inside HttpResp.inDomain (C15_expHttpX_matches_spec_partial); outside it two "
+        "kernel-checked witnesses record the deviations (C15_expHttpX_matches_spec_full_fails: Retry-After seconds beyond +-9223372036 wrap; "
+        "C15_undecodable_2xx_is_retried); not flagged by the oracle because the real receiver never produces these inputs (outside the "
+        "property's quantifier); the oracle there pins the recorded behaviour",
         "a 2xx response whose body is declared protobuf/JSON but does not decode makes the exporter return a plain (retryable) error - "
         "modelled as is (SuccessBody.undecodable), outside the property's quantifier (the real receiver never sends such a body)",
         "an error never carries gRPC code 0 (status.Err() of OK is nil); RetryInfo delays are non-negative",
